@@ -69,9 +69,9 @@ VerdictRts ==
   LET cosH0 == Mul(Sub(Ev.sh0, Mul(Ev.sphi, Ev.sd2)), Ev.icc)      \* icc = 1 / (cos phi cos delta2), verified below
       never == Gt(Abs(cosH0), One)
       \* grazing: the altitude hardly changes with the hour angle at the crossing:
-      \* (cos phi cos delta sin H0)^2 = (cos phi cos delta)^2 (1 - cos^2 H0) < 0.01
+      \* (cos phi cos delta sin H0)^2 = (cos phi cos delta)^2 (1 - cos^2 H0) < 0.03
       cc    == Mul(Ev.cphi, Ev.cd2)
-      graze == Lt(Mul(Mul(cc, cc), Sub(One, Mul(cosH0, cosH0))), Dec(1, 2))
+      graze == Lt(Mul(Mul(cc, cc), Sub(One, Mul(cosH0, cosH0))), Dec(3, 2))
       tolS  == Dec(88, 6)                                           \* 0.005 degree of altitude, as a sine
   IN Viol("WITNESS", Sq1(Ev.sphi, Ev.cphi) /\ Sq1(Ev.sd2, Ev.cd2) /\ Within(Mul(Ev.icc, Mul(Ev.cphi, Ev.cd2)), One, Dec(1, 10)))
   \cup (IF Within(Abs(cosH0), One, Dec(1, 6)) THEN {}             \* exactly grazing: unspecified
